@@ -459,6 +459,19 @@ func runDisputeHistory(t *testing.T, seed int64) (string, map[string]int, string
 			stats[fmt.Sprintf("%s/%d", res.name, res.result)]++
 		}
 	}
+	// in a third of the histories a validator was slashed earlier: its share price is not 1, so token amounts do not
+	// round-trip through shares
+	if r.Intn(3) == 0 {
+		vi := r.Intn(nVals)
+		if v, err := w.s.Stakingkeeper.GetValidator(w.ctx, w.valOps[vi]); err == nil {
+			if cons, err := v.GetConsAddr(); err == nil {
+				func() {
+					defer func() { _ = recover() }()
+					_, _ = w.s.Stakingkeeper.Slash(w.ctx, cons, w.height, v.ConsensusPower(sdk.DefaultPowerReduction), math.LegacyNewDecWithPrec(int64(pick(r, 333333, 100000, 70001)), 6))
+				}()
+			}
+		}
+	}
 	init := w.snap()
 	// a report by reporter 0 (and 1) on the scheduled query, aggregated
 	for b := 0; b < 4 && w.halted == ""; b++ {
